@@ -23,10 +23,110 @@ pub fn run(tier: Tier) -> i32 {
     let mut r2 = explore::dfs(&w2, &cfg2);
     r2.found.retain(|f| f.violation.signature.starts_with("C05/") || f.violation.signature.starts_with("panic/"));
     rep.add_dfs("full-one-slot-server", 1, d2, &r2);
+    // scale class: the table of used connect tokens (2048 entries) is full of older tokens; a token used one
+    // second ago from address A must still be refused from address B after other tokens were presented
+    {
+        let mut n = 0u64;
+        for fill in [2047usize, 2048, 2049, 2100] {
+            for others in [0usize, 1, 3] {
+                n += 1;
+                if let Some(v) = token_table_case(fill, others) {
+                    rep.violation("token-table-full", v, J::obj().set("kind", J::s("token-table")).set("fill", J::i(fill as u64)).set("others", J::i(others as u64)));
+                }
+            }
+        }
+        rep.add_sweep("token-table-full", n, n, 4, vec!["fill in {2047,2048,2049,2100} old tokens, then token T from address A, {0,1,3} other new tokens, T from address B".into()]);
+    }
     rep.finish()
 }
 
+pub fn token_table_case(fill: usize, others: usize) -> Option<crate::explore::Violation> {
+    use crate::explore::Violation;
+    use crate::nc::{self, client_addr, make_token, new_server, server_addr, TokenSpec, SR};
+    use crate::props::hsworld::request_datagram;
+    use renetcode::verif::Packet;
+    use std::time::Duration;
+    let public = vec![server_addr(0)];
+    let mut server = new_server(8, public.clone(), Duration::ZERO);
+    let r = (|| -> Result<(), Violation> {
+        for i in 0..fill {
+            let mut sp = TokenSpec::new(10_000 + i as u64, (i % 251) as u8, public.clone());
+            sp.expire = 600;
+            let mut t = make_token(&sp);
+            // distinct sealed bytes per token: the xnonce carries the index
+            t.xnonce[1] = (i & 0xff) as u8;
+            t.xnonce[2] = (i >> 8) as u8;
+            let t = {
+                let mut s2 = sp.clone();
+                s2.tag = (i % 251) as u8;
+                let mut tk = make_token(&s2);
+                tk.xnonce = t.xnonce;
+                // reseal with the new xnonce through the public generator path: use the hook-free route
+                let private = renetcode::verif::VerifPrivateToken {
+                    client_id: s2.client_id,
+                    timeout_seconds: s2.timeout,
+                    server_addresses: tk.server_addresses,
+                    client_to_server_key: tk.client_to_server_key,
+                    server_to_client_key: tk.server_to_client_key,
+                    user_data: nc::user_data(s2.tag),
+                };
+                tk.private_data = private.seal(s2.protocol, s2.expire, &tk.xnonce, &s2.key).expect("seal");
+                tk
+            };
+            // every filler comes from its own address and stays half-open
+            let from = std::net::SocketAddr::new(std::net::IpAddr::V4(std::net::Ipv4Addr::new(172, 16, (i >> 8) as u8, (i & 0xff) as u8)), 20_000);
+            nc::srv_process(&mut server, from, &request_datagram(&t))?;
+            if i % 512 == 511 {
+                server.update(Duration::from_millis(10));
+            }
+        }
+        server.update(Duration::from_secs(2));
+        let mut spt = TokenSpec::new(77, 77, public.clone());
+        spt.expire = 600;
+        let t = make_token(&spt);
+        let a = client_addr(1);
+        let b = client_addr(2);
+        let r1 = nc::srv_process(&mut server, a, &request_datagram(&t))?;
+        if !matches!(r1, SR::Send { .. }) {
+            return Err(Violation::new("C05/scale/valid-token-refused", format!("token T from its first address got {}", r1.kind())));
+        }
+        server.update(Duration::from_secs(1));
+        for k in 0..others {
+            let mut spo = TokenSpec::new(500 + k as u64, 200 + k as u8, public.clone());
+            spo.expire = 600;
+            nc::srv_process(&mut server, client_addr(5 + k as u16), &request_datagram(&make_token(&spo)))?;
+        }
+        let r2 = nc::srv_process(&mut server, b, &request_datagram(&t))?;
+        if let SR::Send { bytes, .. } = &r2 {
+            let mut d = bytes.clone();
+            if let Some((_, Packet::Challenge { .. })) = nc::open(&mut d, nc::PROTOCOL, &t.server_to_client_key) {
+                return Err(Violation::new(
+                    "C05/token-used-from-another-address-is-challenged",
+                    format!("token table filled with {} older tokens: T was used from {} one second ago, {} other tokens later it is challenged from {}", fill, a, others, b),
+                ));
+            }
+        }
+        Ok(())
+    })();
+    r.err()
+}
+
 pub fn replay(j: &J) -> i32 {
+    if j.get("kind").and_then(|k| k.as_str()) == Some("token-table") {
+        let fill = j.get("fill").and_then(|x| x.as_i()).unwrap_or(2048) as usize;
+        let others = j.get("others").and_then(|x| x.as_i()).unwrap_or(1) as usize;
+        println!("token table case: {} fillers, {} other tokens", fill, others);
+        return match token_table_case(fill, others) {
+            Some(v) => {
+                println!("RESULT: violation {} — {}", v.signature, v.message);
+                1
+            }
+            None => {
+                println!("RESULT: no violation");
+                0
+            }
+        };
+    }
     let idx = j.get("scenario_index").and_then(|x| x.as_i()).unwrap_or(0);
     let mut w = HsWorld::new(if idx == 1 { super::hsworld::c05_full_fix() } else { c05_fix() });
     let acts: Vec<usize> = j
